@@ -21,7 +21,17 @@ def array_bound(f, idx_node):
         b = be["c"][0]
         be = f.exprs[b]
     if "arr" in be and be["k"] in ("mem", "ref", "idx", "str", "complit"):
-        return be["arr"][0], b
+        n = be["arr"][0]
+        if be["k"] == "idx":
+            # `a[c][k]` with a constant row c of a two-dimensional array: the code
+            # indexes the rows that follow through the first one (pop_link[0][8 ... 15],
+            # ets_program_type[0][id]); the object is the whole array, so the bound
+            # is what is left of it from row c on
+            c = ex.const(f, be["c"][1])
+            ob = f.exprs[_strip_decay(f, be["c"][0])]
+            if c is not None and "arr" in ob and len(ob["arr"]) >= 2 and 0 <= c < ob["arr"][0] and ob["arr"][1] == n:
+                return (ob["arr"][0] - c) * n, b
+        return n, b
     if be["k"] == "str":
         return be.get("len", 0) + 1, b
     if be["k"] == "ref" and be.get("dk") == "param":
@@ -31,6 +41,15 @@ def array_bound(f, idx_node):
             if p["name"] == be["name"] and "parr" in p and not _param_reassigned(f, be["name"]):
                 return p["parr"], b
     return None
+
+
+def _strip_decay(f, b):
+    b = ex.skip(f, b)
+    be = f.exprs[b]
+    while be["k"] == "cast" and be["ck"] in ("ArrayToPointerDecay", "NoOp", "LValueToRValue"):
+        b = ex.skip(f, be["c"][0])
+        be = f.exprs[b]
+    return b
 
 
 def _param_reassigned(f, name):
